@@ -22,8 +22,8 @@ CLAIMED = {
         note='Partial claim: the range limit (proved), the defaulting clause (proved) and the call-site clause (bounded, not a proof). lower_int_literal / escapes / float literals / the runtime value of an accepted literal are not under contract; isize/usize are taken as 64-bit.',
         ref='DESIGN.md 5 (C09)'),
     'C10': dict(
-        text='Deductive proof over the real text of compile_unreachable, compile_unreachablez, the part of the Expr::Index arm of compile_expr_with_args after its operands are compiled, and the tagged branch of #unwrap (both lifted mechanically), plus Ty::{as_array,is_array,is_slice} and FinalTy::into_real_type: for every array/slice type, index type and index value, the emitted code compares the index -- read by its own signedness and widened to 64 bits -- unsigned with the length (the array type\'s length, or the first word of the slice value); everything after the comparison, including the element access at data + index*stride(element), is emitted in a block reached only when index < length; the other edge runs exactly puts(message); exit(1); trap and no store; the only reads before the check are the two words of the slice value. #unwrap on a tagged sum type compares the stored tag byte at the layout\'s discriminant offset with the requested variant\'s discriminant and reads the payload only behind that check.',
-        note='Trusted: Cranelift control-flow shim (facts of a block = facts of its single incoming edge, shims/verus/clif_cf.rs), libc puts/exit, cast_ty_to_cranelift contract (proved in unit numeric), layout contracts (unit layout). Assumed path conditions of the lifted ranges: operands carry their types, source is the address of the array/slice value, a slice value holds (length, data pointer). Not covered: the recursive compile_expr calls that produce the operands, the pointer-deref loop in front of the range, the compile-time diagnostic for constant indices, the nullable-pointer branch of #unwrap, get_tagged_union_discrim, unwrap_sum_ty (assumed to read at most the payload), message texts.',
+        text='Deductive proof over the real text of compile_unreachable, compile_unreachablez, the part of the Expr::Index arm of compile_expr_with_args after its operands are compiled, and the tagged branch of #unwrap (both lifted mechanically), plus Ty::{as_array,is_array,is_slice} and FinalTy::into_real_type: for every array/slice type, index type and index value, the emitted code compares the index -- read by its own signedness and widened to 64 bits -- unsigned with the length (the array type\'s length, or the first word of the slice value); everything after the comparison, including the element access at data + index*stride(element), is emitted in a block reached only when index < length; the other edge runs exactly puts(message); exit(1); trap and no store; the only reads before the check are the two words of the slice value. #unwrap on a tagged sum type compares the stored tag byte at the layout\'s discriminant offset with the requested variant\'s discriminant and reads the payload only behind that check. The compile-time clause (a literal index out of range for a fixed-size array is rejected) sits inside infer_expr and gets a BOUNDED stand-in on the real front end: array lengths x literal indices {0, n-1, n, n+1, n+4} x 6 ways of reaching the array.',
+        note='Trusted: Cranelift control-flow shim (facts of a block = facts of its single incoming edge, shims/verus/clif_cf.rs), libc puts/exit, cast_ty_to_cranelift contract (proved in unit numeric), layout contracts (unit layout). Assumed path conditions of the lifted ranges: operands carry their types, source is the address of the array/slice value, a slice value holds (length, data pointer). Not covered: the recursive compile_expr calls that produce the operands, the pointer-deref loop in front of the range, the nullable-pointer branch of #unwrap, get_tagged_union_discrim, unwrap_sum_ty (assumed to read at most the payload), message texts.',
         ref='DESIGN.md 5 (C10)'),
     'C13': dict(
         text='Deductive proof over the real text of Ty::can_fit_into and Ty::is_functionally_equivalent_to (arms outside the Verus dialect elided and treated as unknown): for all types, two nominal types of the same kind with different uids never mix; nothing nominal fits into a different enum variant; a distinct/variant fits neither a named struct, nor a foreign enum, nor its own (plain) underlying type; a named struct does not fit an enum; a variant fits its own enum. The clause "variant / named struct into a distinct wrapper" fails by design and is a recorded known finding.',
